@@ -259,6 +259,9 @@ def check_sequential(acc, ci):
             'limit': StartLimitCurrent(encoder=AbsoluteRotaryEncoder(last), tachometer=Tachometer(motor), motor=motor,
                                        target_angular_position=AngularPosition(4.0, 'rad'),
                                        limit_electric_current=Current(0.6 * chain.imax, 'A')),
+            'prop': StartProportionalToAngularPosition(encoder=AbsoluteRotaryEncoder(last), powertrain=m.pt,
+                                                       target_angular_position=AngularPosition(3.0, 'rad'),
+                                                       pwm_min_multiplier=2),
         }
         case0 = {'kind': 'sequential', 'chain': ci, 'order': [list(x) for x in order]}
         for step, (t, th, sr, lf) in enumerate(order):
@@ -279,6 +282,15 @@ def check_sequential(acc, ci):
                 acc.violation('C15/sequential/ReachAngularPosition', 'a reused rule answers for the current state (current motor load torque)', case,
                               {'got': got, 'expected': exp, 'theta': th, 'theta_s': ths})
                 return
+            # no history is recorded in this pass, so the minimum duty cycle follows the CURRENT motor load
+            if lf >= 0:
+                got = rules['prop'].apply()
+                dmin = 2 * (1 / eta * lf * (chain.imax - chain.i0) / chain.imax + chain.i0 / chain.imax)
+                exp = (1 - dmin) * th / 3.0 + dmin if th <= 3.0 else None
+                if abs(th - 3.0) > 1e-6 and ((got is None) != (exp is None) or (exp is not None and not si.close(got, exp, 1e-9, 1.0))):
+                    acc.violation('C15/sequential/StartProportionalToAngularPosition', 'a reused rule answers for the current state (current motor load torque, no history)', case,
+                                  {'got': got, 'expected': exp, 'theta': th, 'load/Tmax': lf})
+                    return
             got = rules['limit'].apply()
             if th > 4.0:
                 if got is not None:
